@@ -53,7 +53,13 @@ type C09Case struct {
 	ArgPairs   []Pair0     `json:"argpairs,omitempty"`
 	Derivs     []Deriv     `json:"derivs"`
 	Muts       []Mut       `json:"muts"`
+	// Latin1: string values U+0080..U+00FF are stored as single bytes (not valid UTF-8): reading operations
+	// such as String() must leave them exactly as they are
+	Latin1 bool `json:"latin1,omitempty"`
 }
+
+// c09Latin1 is set while a case with Latin1 runs: string values are re-encoded to bytes that are not valid UTF-8.
+var c09Latin1 bool
 
 type Pair0 struct {
 	K string  `json:"k"`
@@ -108,7 +114,7 @@ func genPairs(t *rapid.T) []Pair0 {
 }
 
 func GenC09(t *rapid.T) *C09Case {
-	c := &C09Case{ObjectMode: oneIn(t, 4, "mode")}
+	c := &C09Case{ObjectMode: oneIn(t, 4, "mode"), Latin1: oneIn(t, 5, "latin1")}
 	var names []string
 	if c.ObjectMode {
 		c.RecvPairs, c.ArgPairs = genPairs(t), genPairs(t)
@@ -148,6 +154,9 @@ func specValue(v ValSpec) any {
 	case KFloat:
 		return math.Float64frombits(v.F)
 	case KString:
+		if c09Latin1 {
+			return latin1(v.S)
+		}
 		return v.S
 	case KList:
 		return at.NewList(v.Ref, "nested")
@@ -669,6 +678,8 @@ func applyMut(p *participant, m Mut) bool {
 }
 
 func CheckC09(c *C09Case, st *Stats) error {
+	c09Latin1 = c.Latin1
+	defer func() { c09Latin1 = false }()
 	var parts []*participant
 	var r, a any
 	if c.ObjectMode {
